@@ -1,6 +1,7 @@
 package main
 
 import (
+	"go/token"
 	"fmt"
 	"go/ast"
 	"go/types"
@@ -180,7 +181,8 @@ func ruleC07KeyRewrite(c *Ctx) {
 			// a guard: some earlier statement on every path that looks up / deletes the destination key (newName)
 			fl := c.flow(f)
 			newName := paramVar(f, "newName")
-			okk, _ := fl.dominatedBy(cs.Call, func(m ast.Node) bool {
+			oldName := paramVar(f, "oldName")
+			isGuardNode := func(m ast.Node) bool {
 				guard := false
 				for _, call := range callsIn(m) {
 					if call == cs.Call || call.Pos() >= cs.Call.Pos() {
@@ -200,7 +202,32 @@ func ruleC07KeyRewrite(c *Ctx) {
 					}
 				}
 				return guard
-			}, nil)
+			}
+			// ... on every path, except where the key does not change at all (newName == oldName)
+			an := &Analysis{Must: true, Entry: 0,
+				Node: func(m ast.Node, st State) State {
+					if !containsNode(m, cs.Call) && isGuardNode(m) {
+						return st | 1
+					}
+					return st
+				},
+				Edge: func(b *cfg.Block, i int, st State) State {
+					for _, ft := range fl.edgeFacts(b, i) {
+						be, ok := ast.Unparen(ft.E).(*ast.BinaryExpr)
+						if !ok || newName == nil || oldName == nil {
+							continue
+						}
+						x, y := objOfIdent(info, be.X), objOfIdent(info, be.Y)
+						same := (x == types.Object(newName) && y == types.Object(oldName)) || (x == types.Object(oldName) && y == types.Object(newName))
+						if same && (be.Op == token.NEQ && !ft.Pos || be.Op == token.EQL && ft.Pos) {
+							st |= 1
+						}
+					}
+					return st
+				}}
+			fl.solve(an)
+			stt, reach := fl.before(an, cs.Call)
+			okk := reach && stt&1 != 0
 			c.verdictIf(okk, rule, f, fmt.Sprintf("raw-update#%d", k), cs.Call.Pos(),
 				"destination key checked/cleared before the primary key is rewritten", "the primary key (name) is rewritten without checking or clearing the destination key: if the new name already holds a row - live, or a tombstone left by an earlier delete or by a previous pass over the same tape - the statement fails on the UNIQUE constraint, so re-indexing a history with a rename does not converge")
 		}
